@@ -59,7 +59,7 @@ type c04binder struct {
 	anyLoc  map[interface{}]bool
 	refs    map[string]bool
 	seen    map[uintptr]bool
-	rootPtr uintptr
+	objName map[interface{}]string
 }
 
 func (b *c04binder) walk(v reflect.Value, top bool) {
@@ -79,8 +79,10 @@ func (b *c04binder) walk(v reflect.Value, top bool) {
 		x := v.Interface()
 		if !top {
 			if b.k.globals[x] {
-				if n, ok := c04nameOfObject(x); ok {
+				if n, ok := b.objName[x]; ok {
 					b.refs[n] = true
+				} else if n, ok := c04nameOfObject(x); ok {
+					b.refs[n+" (not a definition of the text)"] = true
 				}
 				return
 			}
@@ -132,6 +134,10 @@ func (b *c04binder) walk(v reflect.Value, top bool) {
 }
 
 // c04binding returns the discrepancies between the names written in text and the objects bound.
+// Objects are identified INDEPENDENTLY of the IDs the parser assigned: the k-th global variable /
+// alias / ifunc / function of the text is the k-th element of the module's list of that kind (the
+// lists keep textual order), and an object is called by the name or number its definition carries
+// in the text.
 func c04binding(text string, m *ir.Module, k *idCheck) []string {
 	sites := c05sites(text)
 	anyLoc := map[interface{}]bool{}
@@ -140,19 +146,21 @@ func c04binding(text string, m *ir.Module, k *idCheck) []string {
 			anyLoc[x] = true
 		}
 	}
-	// objects by name.
-	objs := map[string]interface{}{}
-	for x := range k.globals {
-		if n, ok := c04nameOfObject(x); ok {
-			objs[n] = x
-		}
+	type ent struct {
+		e    [2]int
+		def  *c05site
+		name string
+		root interface{}
 	}
+	var ents []ent
+	nG, nA, nI, nF := 0, 0, 0, 0
+	objName := map[interface{}]string{}
+	mdObjs := map[string]interface{}{}
 	for _, d := range m.MetadataDefs {
 		if d.ID() != -1 {
-			objs[fmt.Sprintf("!%d", d.ID())] = d
+			mdObjs[fmt.Sprintf("!%d", d.ID())] = d
 		}
 	}
-	var out []string
 	for _, e := range c05entities(text) {
 		var def *c05site
 		for i := range sites {
@@ -162,17 +170,54 @@ func c04binding(text string, m *ir.Module, k *idCheck) []string {
 				break
 			}
 		}
-		if def == nil || (def.kind != "global" && def.kind != "metadata-id") {
+		if def == nil {
 			continue
 		}
-		name := c04nameOfToken(def.tok)
-		if def.kind == "metadata-id" {
-			name = def.tok
+		first := strings.SplitN(text[e[0]:e[1]], "\n", 2)[0]
+		switch def.kind {
+		case "metadata-id":
+			if root, ok := mdObjs[def.tok]; ok {
+				ents = append(ents, ent{e, def, def.tok, root})
+			}
+		case "global":
+			name := c04nameOfToken(def.tok)
+			var root interface{}
+			rest := first[strings.Index(first, def.tok)+len(def.tok):]
+			switch {
+			case strings.HasPrefix(first, "define") || strings.HasPrefix(first, "declare"):
+				if nF < len(m.Funcs) {
+					root = m.Funcs[nF]
+				}
+				nF++
+			case strings.Contains(rest, " alias "):
+				if nA < len(m.Aliases) {
+					root = m.Aliases[nA]
+				}
+				nA++
+			case strings.Contains(rest, " ifunc "):
+				if nI < len(m.IFuncs) {
+					root = m.IFuncs[nI]
+				}
+				nI++
+			default:
+				if nG < len(m.Globals) {
+					root = m.Globals[nG]
+				}
+				nG++
+			}
+			if root == nil {
+				return []string{fmt.Sprintf("entity %s of the text has no counterpart in the module's lists", def.tok)}
+			}
+			objName[root] = name
+			ents = append(ents, ent{e, def, name, root})
 		}
-		root, ok := objs[name]
-		if !ok {
-			continue // (an entity the module does not list under that name is C01's business)
-		}
+	}
+	if nG != len(m.Globals) || nA != len(m.Aliases) || nI != len(m.IFuncs) || nF != len(m.Funcs) {
+		return nil // (entities the tokeniser does not see: no verdict)
+	}
+	var out []string
+	for _, en := range ents {
+		e, def, name := en.e, en.def, en.name
 		want := map[string]bool{}
 		for _, s := range sites {
 			if s.def || s.start < e[0] || s.start >= e[1] {
@@ -192,9 +237,9 @@ func c04binding(text string, m *ir.Module, k *idCheck) []string {
 		if first := strings.SplitN(et, "\n", 2)[0]; strings.Contains(first, " comdat") && !strings.Contains(first, " comdat(") && !strings.Contains(first, "= comdat") {
 			want["$"+strings.TrimPrefix(name, "@")] = true
 		}
-		b := &c04binder{k: k, anyLoc: anyLoc, refs: map[string]bool{}, seen: map[uintptr]bool{}}
-		b.walk(reflect.ValueOf(root), true)
-		if f, ok := root.(*ir.Func); ok {
+		b := &c04binder{k: k, anyLoc: anyLoc, refs: map[string]bool{}, seen: map[uintptr]bool{}, objName: objName}
+		b.walk(reflect.ValueOf(en.root), true)
+		if f, ok := en.root.(*ir.Func); ok {
 			for _, p := range f.Params {
 				b.walk(reflect.ValueOf(p), true)
 			}
